@@ -398,6 +398,40 @@ Definition c_step (c : cstate) (e : cevent) : cstate :=
 
 Definition c_run (c : cstate) (evs : list cevent) : cstate := fold_left c_step evs c.
 
+(* ------------------------------------------------------------ entries of llgr_family_timers whose timer is gone *)
+
+(* [h_ltimers] are the families with an ARMED LLGR timer (an entry of PeerContext::llgr_family_timers
+   whose task is alive).  llgr_timer_expired does not remove the entry of the timer that ran out:
+   the entry stays in the map with its task gone ("dead") until the map is cleared (StopLlgrTimers
+   when the peer comes back during the LLGR period, fire_llgr_timers of a forced peer-down) or a
+   later LLGR period of the family stores its new timer over it (llgr_family_timers.extend
+   overwrites).  [t_dead] keeps these entries next to the state, so that the map of the code is
+   [h_ltimers] (alive) plus [t_dead] (dead); a dead entry is not an armed timer. *)
+Definition is_llgr_staling (g : grinner) : bool := match g with GLlgrStaling _ => true | _ => false end.
+
+Definition fired_of (e : cevent) : option fam := match e with CBase (HLlgrTimer f) => Some f | _ => None end.
+Definition is_force (e : cevent) : bool := match e with CBase HForceDown => true | _ => false end.
+
+(* h, h': the state before and after the step *)
+Definition dead_next (h h' : hstate) (fired : option fam) (force : bool) (dead : list fam) : list fam :=
+  let established := negb (h_gen h' =? h_gen h) in
+  let base :=
+    if force then []                               (* fire_llgr_timers drains the map *)
+    else match fired with
+         | Some f => if mem f (h_ltimers h) then f :: dead else dead      (* the entry stays, its task is gone *)
+         | None => if established && is_llgr_staling (h_gr h) then []     (* StopLlgrTimers: cancel_llgr_timers clears *)
+                   else dead
+         end in
+  (* extend(): the timers armed in this step replace whatever entry their family had *)
+  dedup (filter (fun f => negb (mem f (h_ltimers h'))) base).
+
+Record tstate := { t_c : cstate; t_dead : list fam }.
+Definition t0 : tstate := {| t_c := c0; t_dead := [] |}.
+Definition t_step (t : tstate) (e : cevent) : tstate :=
+  let c' := c_step (t_c t) e in
+  {| t_c := c'; t_dead := dead_next (c_h (t_c t)) (c_h c') (fired_of e) (is_force e) (t_dead t) |}.
+Definition t_run (t : tstate) (evs : list cevent) : tstate := fold_left t_step evs t.
+
 (* ------------------------------------------------------------ observation *)
 
 Definition v_pairs (l : list (fam * N)) : val := VList VPairN l.
@@ -431,23 +465,14 @@ Definition v_negotiated (s : option session) : val :=
                   VOpt v_pairs (s_llgr s)]
   end.
 
-Fixpoint observe_h (h : hstate) (evs : list hevent) : list val :=
+Fixpoint observe_t (t : tstate) (evs : list cevent) : list val :=
   match evs with
   | [] => []
-  | e :: r => let h' := h_step h e in
+  | e :: r => let t' := t_step t e in
+              let h' := c_h (t_c t') in
               VL [VB (is_peer_restarting (h_gr h')); VB (h_rtimer h'); VNs (h_ltimers h');
-                  VList v_route (h_rib h'); v_negotiated (h_sess h')] :: observe_h h' r
+                  VList v_route (h_rib h'); v_negotiated (h_sess h'); VNs (t_dead t')] :: observe_t t' r
   end.
 
-Definition run_h_case (evs : list hevent) : val := VL (observe_h h0 evs).
-
-Fixpoint observe_c (c : cstate) (evs : list cevent) : list val :=
-  match evs with
-  | [] => []
-  | e :: r => let c' := c_step c e in
-              let h' := c_h c' in
-              VL [VB (is_peer_restarting (h_gr h')); VB (h_rtimer h'); VNs (h_ltimers h');
-                  VList v_route (h_rib h'); v_negotiated (h_sess h')] :: observe_c c' r
-  end.
-
-Definition run_c_case (evs : list cevent) : val := VL (observe_c c0 evs).
+Definition run_c_case (evs : list cevent) : val := VL (observe_t t0 evs).
+Definition run_h_case (evs : list hevent) : val := run_c_case (map CBase evs).
